@@ -29,6 +29,8 @@ type Explorer struct {
 	H        Harness
 	Bound    int  // maximum number of deviations; <0: unbounded
 	Delay    bool // delay-bounded cost model
+	Rotate   bool // round-robin canonical schedule
+	Reverse  bool // descending-id canonical schedule
 	MaxSteps int
 	Horizon  time.Duration
 	Deadline time.Time
@@ -84,7 +86,7 @@ func (e *Explorer) runOne(choices []int) (*Trace, string, []Viol) {
 	var outcome string
 	var viols []Viol
 	var st any
-	tr := Run(e.T, Options{Prefix: choices, MaxSteps: e.MaxSteps, Delay: e.Delay, Horizon: e.Horizon},
+	tr := Run(e.T, Options{Prefix: choices, MaxSteps: e.MaxSteps, Delay: e.Delay, Rotate: e.Rotate, Reverse: e.Reverse, Horizon: e.Horizon},
 		func(s *Sched) { st = e.H.Setup(s) },
 		func(s *Sched, tr *Trace) { outcome, viols = e.H.Check(s, tr, st) })
 	if tr.Aborted && outcome == "" {
